@@ -49,13 +49,16 @@ def gen_model(rng, idx):
     inp = Input((8, 8, 2), name=f"i{idx}")
     x = inp
     for j in range(int(rng.integers(1, 3))):
-      t = int(rng.integers(0, 3))
-      if t == 0:
+      t = int(rng.integers(0, 4))
+      if t == 3:
+        x = qkeras.QMobileNetSeparableConv2D(int(rng.integers(1, 4)), 3, padding="same", depthwise_quantizer=pick(rng, WQ), pointwise_quantizer=pick(rng, WQ),
+                                             bias_quantizer=pick(rng, WQ[:6] + [None]), name=f"mb{idx}_{j}")(x)
+      elif t == 0:
         x = qkeras.QConv2D(int(rng.integers(1, 4)), 3, padding="same", use_bias=bool(rng.integers(0, 2)), kernel_quantizer=pick(rng, WQ),
                            bias_quantizer=pick(rng, WQ[:6] + [None]), activation=pick(rng, AQ), name=f"c{idx}_{j}")(x)
       elif t == 1:
-        x = qkeras.QDepthwiseConv2D(3, padding="same", depthwise_quantizer=pick(rng, WQ), bias_quantizer=pick(rng, WQ[:6] + [None]),
-                                    activation=pick(rng, AQ), name=f"dw{idx}_{j}")(x)
+        x = qkeras.QDepthwiseConv2D(3, padding="same", depth_multiplier=int(rng.integers(1, 3)), depthwise_quantizer=pick(rng, WQ),
+                                    bias_quantizer=pick(rng, WQ[:6] + [None]), activation=pick(rng, AQ), name=f"dw{idx}_{j}")(x)
       else:
         x = qkeras.QSeparableConv2D(int(rng.integers(1, 4)), 3, padding="same", depthwise_quantizer=pick(rng, WQ),
                                     pointwise_quantizer=pick(rng, WQ), bias_quantizer=pick(rng, WQ[:6] + [None]), name=f"sp{idx}_{j}")(x)
@@ -67,8 +70,12 @@ def gen_model(rng, idx):
         else L.Flatten(name=f"f{idx}")(x)
   else:
     inp = Input((10, 3), name=f"i{idx}")
-    x = qkeras.QConv1D(int(rng.integers(1, 4)), 3, padding=pick(rng, ["valid", "same", "causal"]), kernel_quantizer=pick(rng, WQ),
-                       bias_quantizer=pick(rng, WQ[:6] + [None]), activation=pick(rng, AQ), name=f"c1_{idx}")(inp)
+    if rng.integers(0, 3) == 0:
+      x = qkeras.QSeparableConv1D(int(rng.integers(1, 4)), 3, padding=pick(rng, ["valid", "same"]), depthwise_quantizer=pick(rng, WQ),
+                                  pointwise_quantizer=pick(rng, WQ), bias_quantizer=pick(rng, WQ[:6] + [None]), name=f"s1_{idx}")(inp)
+    else:
+      x = qkeras.QConv1D(int(rng.integers(1, 4)), 3, padding=pick(rng, ["valid", "same", "causal"]), kernel_quantizer=pick(rng, WQ),
+                         bias_quantizer=pick(rng, WQ[:6] + [None]), activation=pick(rng, AQ), name=f"c1_{idx}")(inp)
     x = L.Flatten(name=f"f{idx}")(x)
   for j in range(int(rng.integers(1, 3))):
     x = qkeras.QDense(int(rng.integers(1, 5)), use_bias=bool(rng.integers(0, 2)), kernel_quantizer=pick(rng, WQ),
@@ -106,7 +113,7 @@ def main():
   env.install_learning_phase()
   env.set_phase(0)
   rep.cov["rule"] = ("random quantized models (QDense, QConv1D incl. causal, QConv2D, QDepthwiseConv2D, QSeparableConv2D, QActivation, "
-                     "QAveragePooling2D, QGlobalAveragePooling2D) with weight / activation quantizers drawn from 15 + 13 option strings "
+                     "QAveragePooling2D, QGlobalAveragePooling2D, QSeparableConv1D, QMobileNetSeparableConv2D, depth multipliers, QAdaptiveActivation, QActivation built from quantizer objects) with weight / activation quantizers drawn from 15 + 13 option strings "
                      "(incl. auto scales, po2, binary/ternary, quantized_linear, quantized_hswish) x random weights/inputs x three routes: "
                      "JSON rebuild + set_weights, clone_model, HDF5 save + load_qmodel (no user custom objects). Outputs compared bitwise, "
                      "get_quantizers() strings compared. distinct = distinct model JSON")
